@@ -54,7 +54,7 @@ func runC15(cfg *vh.Config) error {
 			prof.Supported, prof.Wild = false, 5
 		}
 		c := descgen.Generate(r.Fork(fmt.Sprintf("c15-%d-%d", len(cases), invalid)), prof, deps)
-		if len(cases)%6 == 5 {
+		if len(cases)%8 == 5 {
 			// a valid j5s package compiled by the real compiler (the C02 generator)
 			jc, jerr := descgen.GenerateJ5S(r.Fork(fmt.Sprintf("c15-j5s-%d-%d", len(cases), invalid)))
 			if jerr != nil {
